@@ -149,7 +149,7 @@ def build(pid=None, extra_dirs=(), all_props=False):
     lock = open(COQ / ".buildlock", "w")
     fcntl.flock(lock, fcntl.LOCK_EX)
     try:
-        info, errs = regenerate(None if all_props else [pid])
+        info, errs = regenerate(None if all_props else [pid] + list(extra_dirs))
         b.generated = info
         fs = write_project()
         claimed = manifest_props()
